@@ -119,7 +119,6 @@ template<int L, class T, glm::qualifier Q> void fill_vec(const uint64_t* b, int 
 template<class T> void mask_all() {
     constexpr int W = int(sizeof(T) * 8);
     for (int n = 0; n <= W; ++n) {
-        if (std::numeric_limits<T>::is_signed && n == W - 1) continue;   // (1 << (W-1)) - 1 overflows the signed type: outside the domain (C20)
         T nn = T(n); T r = glm::mask(nn); EV("mask", T, 0).arg(nn).res(r).emit();
     }
     for (int n = 0; n + 3 <= W - 2; ++n) {
